@@ -1621,3 +1621,52 @@ def e_svd_helpers(g):
     kw = dict(tensor=m, U=U, S=S, V=V)
     g.opt(kw, "nntype", ["nndsvd", "nndsvda"], 0.5)
     return dict(fn=make_svd_non_negative, kwargs=kw)
+
+
+# =============================================================== SVD-initialised decompositions without a seed (C16, third sentence)
+
+_SVDINIT = ["parafac", "non_negative_parafac", "non_negative_parafac_hals", "constrained_parafac", "tucker", "partial_tucker",
+            "non_negative_tucker", "non_negative_tucker_hals", "parafac2", "CP", "Tucker"]  # fmt: skip
+
+
+def e_svdinit(g, which):
+    """Exact-SVD initialisation, rank <= every mode size, random_state left at None: no random choice is
+    involved, so repeated calls must agree bit for bit whatever the global RNG does."""
+    import tensorly.decomposition as D
+
+    shape = g.choice([(3, 4, 3), (4, 3, 3), (3, 3, 3)])
+    rank = g.choice([2, 1, 3])
+    nonneg = "non_negative" in which or which == "constrained_parafac"
+    tensor = g.low_rank(shape, 2, nonneg=nonneg)
+    svd = g.choice(["truncated_svd", "symeig_svd"])
+    it = g.choice([2, 1, 3])
+    g.notes["which"] = which
+    if which == "parafac":
+        kw = dict(tensor=tensor, rank=rank, n_iter_max=it, init="svd", svd=svd)
+        g.opt(kw, "normalize_factors", [True], 0.3)
+        g.opt(kw, "linesearch", [True], 0.2)
+        return dict(fn=D.parafac, kwargs=kw)
+    if which in ("non_negative_parafac", "non_negative_parafac_hals"):
+        kw = dict(tensor=tensor, rank=rank, n_iter_max=it, init="svd", svd=svd)
+        g.opt(kw, "normalize_factors", [True], 0.3)
+        return dict(fn=getattr(D, which), kwargs=kw)
+    if which == "constrained_parafac":
+        kw = dict(tensor=tensor, rank=rank, n_iter_max=it, init="svd", svd=svd, non_negative=True)
+        return dict(fn=D.constrained_parafac, kwargs=kw)
+    if which in ("tucker", "non_negative_tucker", "non_negative_tucker_hals"):
+        kw = dict(tensor=tensor, rank=[rank] * 3, n_iter_max=it, init="svd")
+        if which != "non_negative_tucker":
+            kw["svd"] = svd
+        return dict(fn=getattr(D, which), kwargs=kw)
+    if which == "partial_tucker":
+        return dict(fn=D.partial_tucker, kwargs=dict(tensor=tensor, rank=[rank, rank], modes=[0, 1], n_iter_max=it, init="svd", svd=svd))
+    if which == "parafac2":
+        kw = dict(tensor_slices=_slices(g, 3, 3, [4, 4, 4]), rank=g.choice([2, 1]), n_iter_max=it, init="svd", svd=svd)
+        g.opt(kw, "linesearch", [False], 0.4)
+        return dict(fn=D.parafac2, kwargs=kw)
+    if which == "CP":
+        return dict(fn=lambda tensor, **o: D.CP(**o).fit_transform(tensor), kwargs=dict(tensor=tensor, rank=rank, n_iter_max=it, init="svd", svd=svd))
+    return dict(fn=lambda tensor, **o: D.Tucker(**o).fit_transform(tensor), kwargs=dict(tensor=tensor, rank=[rank] * 3, n_iter_max=it, init="svd", svd=svd))
+
+
+split_entry("svdinit", e_svdinit, _SVDINIT, deterministic=True, groups=("c16",))
